@@ -8,8 +8,17 @@ pub struct ServiceInfo { _p: () }
 impl ServiceInfo {
     #[verifier::external_body]
     pub fn new(version: u32) -> (r: Self) { unimplemented!() }
+    // whether the service supports all-events subscriptions (an Option<bool> field of the opaque ServiceInfo); the setter and
+    // getter of the core crate are one-liners on that field. ASSUMED.
+    pub uninterp spec fn spec_subscribe_all(self) -> Option<bool>;
     #[verifier::external_body]
-    pub fn set_subscribe_all(self, subscribe_all: bool) -> (r: Self) { unimplemented!() }
+    pub fn set_subscribe_all(self, subscribe_all: bool) -> (r: Self)
+        ensures r.spec_subscribe_all() == Some(subscribe_all)
+    { unimplemented!() }
+    #[verifier::external_body]
+    pub fn subscribe_all(self) -> (r: Option<bool>)
+        ensures r == self.spec_subscribe_all()
+    { unimplemented!() }
 }
 opaque!(DeserializeError);
 impl SerializedValue {
